@@ -143,6 +143,22 @@ class Agg:
         return f"{self.name}{v}{self.fields}"
 
 
+class Coro(Agg):
+    """Coroutine (async fn / async block) value: `fields` are the captured upvars, `state` the resume-point
+    discriminant (0 unresumed, 1 returned, 2 panicked, >= 3 suspended), `vars` the saved locals per suspend variant,
+    `body` the name of the MIR resume function."""
+    __slots__ = ("state", "vars", "body")
+
+    def __init__(self, name, fields, meta=None, body=None):
+        Agg.__init__(self, name, fields, None, meta)
+        self.state = 0
+        self.vars = {}
+        self.body = body
+
+    def __repr__(self):
+        return f"Coro<{self.body} state={self.state}>"
+
+
 class CEnum:
     """Field-less enum with a (possibly symbolic) discriminant, e.g. cmp::Ordering."""
     __slots__ = ("name", "disc")
@@ -223,6 +239,8 @@ def unit():
 
 def clone_value(v):
     """Value copy (by-value semantics for aggregates; pointers are copied as pointers)."""
+    if isinstance(v, Coro):
+        return v  # coroutines are never Copy: a `copy` of one can only be a move in disguise
     if isinstance(v, Agg):
         return Agg(v.name, [clone_value(f) for f in v.fields], v.variant, v.meta)
     return v
